@@ -293,9 +293,21 @@ func checkKindGuard(r *Run, tp *packages.Package) {
 
 func checkStringTypeGuard(r *Run, tp *packages.Package, cg *CallGraph) {
 	info := tp.TypesInfo
+	// the guard: the function whose own body states `jsonb_typeof(…) = 'string'` — it contains the constant "string" and
+	// mentions pgsql.FunctionJSONBTypeof itself or through a helper it calls (found by that, not by its private name)
 	var guard *types.Func
-	for fn := range cg.Decl {
-		if cg.PkgOf[fn] == tp && fn.Name() == "jsonbStringTypeCheck" {
+	for _, fd := range declsWhere(tp, func(fd *ast.FuncDecl) bool {
+		if !hasStringConst(info, fd.Body, "string") || !usesObject(info, fd.Body, "/pgsql", "OperatorEquals") {
+			return false
+		}
+		for _, b := range bodyWithHelpers(tp, fd) {
+			if usesObject(info, b, "/pgsql", "FunctionJSONBTypeof") {
+				return true
+			}
+		}
+		return false
+	}) {
+		if fn, ok := info.Defs[fd.Name].(*types.Func); ok && guard == nil {
 			guard = fn
 		}
 	}
@@ -344,10 +356,19 @@ func checkUniquenessGuard(r *Run, tp *packages.Package, cg *CallGraph) {
 		if cg.PkgOf[fn] != tp {
 			continue
 		}
-		switch fn.Name() {
-		case "expansionRecursivePathExpression":
+		// the path extension appends an edge id to the path array (OperatorConcatenate over the edge's ColumnID) and
+		// returns the expression; the uniqueness conjunct is `edge id != all(path)` (NewAllExpression under OperatorNotEquals)
+		fd := cg.Decl[fn]
+		if fd == nil || fd.Body == nil {
+			continue
+		}
+		tinfo := tp.TypesInfo
+		sig := fn.Type().(*types.Signature)
+		returnsBinary := sig.Results().Len() == 1 && namedName(sig.Results().At(0).Type()) == "BinaryExpression"
+		if returnsBinary && usesObject(tinfo, fd.Body, "/pgsql", "OperatorConcatenate") && usesObject(tinfo, fd.Body, "/pgsql", "ColumnID") {
 			extend = fn
-		case "expansionEdgeNotInPath":
+		}
+		if returnsBinary && usesObject(tinfo, fd.Body, "/pgsql", "NewAllExpression") && usesObject(tinfo, fd.Body, "/pgsql", "OperatorNotEquals") {
 			notIn = fn
 		}
 	}
@@ -382,7 +403,7 @@ func checkUniquenessGuard(r *Run, tp *packages.Package, cg *CallGraph) {
 		}
 	}
 	if len(cg.In[notIn]) == 0 {
-		r.Fail("C01-R3-guard", "expansion:relationship-uniqueness:used", cg.Decl[notIn].Pos(), "expansionEdgeNotInPath has no caller: no expansion enforces relationship uniqueness")
+		r.Fail("C01-R3-guard", "expansion:relationship-uniqueness:used", cg.Decl[notIn].Pos(), "the edge-not-in-path constructor has no caller: no expansion enforces relationship uniqueness")
 	} else {
 		r.Pass("C01-R3-guard", "expansion:relationship-uniqueness:used", cg.Decl[notIn].Pos(), "%d expansion builders add the uniqueness conjunct", len(cg.In[notIn]))
 	}
